@@ -151,6 +151,30 @@ def zero_scale(draw, spec, n_ids, theta, p=0.06):
     return theta, True
 
 
+def nest_reduced(draw, spec, n_ids, theta, p=0.1):
+    """With probability p, one part of an (un-nested) composition is replaced by a reduced model of that part in which a
+    subset of its parameters - possibly ALL of them - is fixed at their values (the sub-model then reports fewer, or no,
+    parameters, but still scores its dimensions). Returns (spec, theta of the free parameters, flag)."""
+    if spec['kind'] != 'comp' or any(q['kind'] not in ref.ELEM + ('cov',) for q in spec['parts']) or not gen.chance(draw, p):
+        return spec, theta, None
+    cands = [j for j, q in enumerate(spec['parts']) if q['kind'] in ref.ELEM and q['kind'] != 'hetero']
+    if not cands:
+        return spec, theta, None
+    j = cands[draw(st.integers(0, len(cands) - 1))]
+    off = sum(ref.pop_n_par(q, n_ids) for q in spec['parts'][:j])
+    n = ref.pop_n_par(spec['parts'][j], n_ids)
+    if len(theta) - n < 1 and n < 2:
+        return spec, theta, None
+    if gen.chance(draw, 0.5) and len(theta) - n >= 1:
+        fixed = list(range(n))
+    else:
+        fixed = draw(gen.subset(n, min_size=1, max_size=n if len(theta) - n >= 1 else n - 1))
+    parts = list(spec['parts'])
+    parts[j] = dict(kind='red', base=parts[j], fixed=list(fixed), values=[theta[off + k] for k in fixed])
+    theta = [v for i, v in enumerate(theta) if not (off <= i < off + n and (i - off) in fixed)]
+    return dict(spec, parts=parts), theta, ('all' if len(fixed) == n else 'some')
+
+
 def draw_reduced(draw, spec, n_ids, cov, min_fixed=1, positive=False):
     """Wrap spec in a 'red' node fixing a subset of its parameters; returns
     (red_spec, free theta)."""
